@@ -596,4 +596,13 @@ theorem C14_vocabulary_rejects (U : String → Prop) (t : String)
     rcases ht with rfl | rfl | rfl | rfl | rfl | rfl | rfl | rfl | rfl | rfl | rfl | rfl | rfl | rfl | rfl | rfl | rfl | rfl <;>
       simp [quoteStr] at this
 
+/-- The scope-dependent words do occur (so `C14_vocabulary` cannot be strengthened by dropping them): the signature
+of `eq` ends in the bare word `bool` behind `->`, not behind `::` — known finding KF-bool (a local `struct bool;` is
+what `-> bool` then names); likewise the cast target of the discriminant comparison is a bare integer type name
+(KF-isize). -/
+theorem C14_scope_dependence_witness :
+    Sig.toks .eq = ["fn", "eq", "(", "&", "self", ",", "__other", ":", "&", "Self", ")", "-", ">", "bool"] ∧
+    (∀ cx e, Expr.toks cx (.cast e .isize) = Expr.toks cx e ++ ["as", "isize"]) :=
+  ⟨rfl, fun _ _ => by simp [Expr.toks, IntTy.tok]⟩
+
 end DW
